@@ -41,19 +41,19 @@ theorem uLeafLoop_noU (v : String) (parts : List Operand) (h : ∀ o ∈ parts, 
   · rfl
 
 /-- `P` for whole (sub-)kernels, `Q v` for the inside of the loop at rank `v` -/
-theorem runK_ind (declared : Bool) (noU : Bool) (P : List KEv → Prop) (Q : String → List KEv → Prop)
-    (hnil : P []) (hleaf : ∀ zt ops, P (leafBody zt ops).2)
+theorem runK_ind (cfg : KCfg) (noU : Bool) (P : List KEv → Prop) (Q : String → List KEv → Prop)
+    (hnil : P []) (hleaf : ∀ b zt ops, P (leafBody b zt ops).2)
     (hQ0 : ∀ v, Q v []) (hQapp : ∀ v a b, Q v a → Q v b → Q v (a ++ b))
     (hiter : ∀ v c pos inner, P inner → Q v (iterEv v c pos inner))
     (hiterU : noU = false → ∀ v inner, P inner → Q v (iterEvU v inner))
-    (hwrap : ∀ v (asrt inner : List KEv), (∀ e ∈ asrt, ∃ ins, e = KEv.assertShape v declared ins) → Q v inner →
+    (hwrap : ∀ v (asrt inner : List KEv), (∀ e ∈ asrt, ∃ ins, e = KEv.assertShape v cfg.declared ins) → Q v inner →
       P ([KEv.call (.registerRank v)] ++ asrt ++ inner ++ [KEv.call (.endIter v)]))
     :
     ∀ (loops zr : List String) (zt : ATree) (ops : List Operand),
-      (noU = true → ∀ o ∈ ops, o.uShape = none) → P (runK declared loops zr zt ops).2 := by
+      (noU = true → ∀ o ∈ ops, o.uShape = none) → P (runK cfg loops zr zt ops).2 := by
   intro loops
   induction loops with
-  | nil => intro zr zt ops _; simp only [runK]; exact hleaf zt ops
+  | nil => intro zr zt ops _; simp only [runK]; exact hleaf _ zt ops
   | cons v rest ih =>
     intro zr zt ops hU
     have hUd : ∀ ch, noU = true → ∀ o ∈ descend v ops ch, o.uShape = none :=
@@ -72,7 +72,7 @@ theorem runK_ind (declared : Bool) (noU : Bool) (P : List KEv → Prop) (Q : Str
         · -- the yields
           suffices hy : ∀ (ys : List ((Int × Tree Int Int d × List (Nat × ATree)) × Nat)),
               Q v (ys.flatMap fun y => iterEv v y.1.1 y.2
-                (runK declared rest zr.tail ⟨d, y.1.2.1⟩ (descend v ops y.1.2.2)).2) from hy _
+                (runK cfg rest zr.tail ⟨d, y.1.2.1⟩ (descend v ops y.1.2.2)).2) from hy _
           intro ys
           induction ys with
           | nil => simpa using hQ0 v
@@ -85,11 +85,11 @@ theorem runK_ind (declared : Bool) (noU : Bool) (P : List KEv → Prop) (Q : Str
       apply hwrap v [] _ (fun e he => by cases he)
       have key : ∀ (l : List ((Int × List (Nat × ATree)) × Nat)) (acc : ATree × List KEv), Q v acc.2 →
           Q v (l.foldl (fun (acc : ATree × List KEv) y =>
-            ((runK declared rest zr acc.1 (descend v ops y.1.2)).1,
+            ((runK cfg rest zr acc.1 (descend v ops y.1.2)).1,
               acc.2 ++ (if (uLeafLoop v (ops.filter fun o => o.ranks.head? == some v)).isSome then
-                  iterEvU v (runK declared rest zr acc.1 (descend v ops y.1.2)).2
+                  iterEvU v (runK cfg rest zr acc.1 (descend v ops y.1.2)).2
                 else iterEv v y.1.1 (usePos (decide ((ops.filter fun o => o.ranks.head? == some v).length ≥ 2)) y.2 y.1.2)
-                  (runK declared rest zr acc.1 (descend v ops y.1.2)).2))) acc).2 := by
+                  (runK cfg rest zr acc.1 (descend v ops y.1.2)).2))) acc).2 := by
         intro l
         induction l with
         | nil => intro acc h; exact h
@@ -115,6 +115,31 @@ end Ft.C15
 
 namespace Ft.C15
 open Ft
+
+/-- a property of event lists that is closed under `++` holds for the innermost statement as soon as it
+    holds for the events of each payload operator -/
+theorem bodyEv_ind (P : List KEv → Prop) (h0 : P []) (happ : ∀ a b, P a → P b → P (a ++ b))
+    (hm : P mulEv) (him : P imulEv) (ha : P addEv) (has : P assignEv) (hi : ∀ old, P (iaddEv old))
+    (b : Body) (n : Nat) (old : Int) : P (bodyEv b n old) := by
+  have rep : ∀ (x : List KEv), P x → ∀ (l : List Nat), P (l.flatMap (fun _ => x)) := by
+    intro x hx l
+    induction l with
+    | nil => exact h0
+    | cons y ys ih => rw [List.flatMap_cons]; exact happ _ _ hx ih
+  cases b with
+  | iaddMul => exact happ _ _ (rep _ hm _) (hi old)
+  | addAssign => exact happ _ _ (happ _ _ (rep _ hm _) ha) has
+  | imulTmp => exact happ _ _ (rep _ him _) (hi old)
+
+theorem leafBody_ind (P : List KEv → Prop) (h0 : P []) (happ : ∀ a b, P a → P b → P (a ++ b))
+    (hm : P mulEv) (him : P imulEv) (ha : P addEv) (has : P assignEv) (hi : ∀ old, P (iaddEv old))
+    (b : Body) (zt : ATree) (ops : List Operand) : P (leafBody b zt ops).2 := by
+  unfold leafBody
+  split
+  · split
+    · exact h0
+    · exact bodyEv_ind P h0 happ hm him ha has hi _ _ _
+  · exact h0
 
 /-! ### additive measures -/
 
@@ -159,19 +184,11 @@ theorem Bal.iaddEv (old : Int) : Bal (iaddEv old) := by
     simp [Bal, cnt, callsOf, sumInc, nMul, nUpd, nAdd, Ft.C15.iaddEv, strip_compute]
   · simp [Bal, cnt, callsOf, sumInc, nMul, nUpd, nAdd, Ft.C15.iaddEv, strip_compute, h]
 
-theorem Bal.leaf (zt : ATree) (ops : List Operand) : Bal (leafBody zt ops).2 := by
-  unfold leafBody
-  split
-  · split
-    · exact Bal.nil
-    · rename_i v0 vs hh
-      clear hh
-      simp only
-      apply Bal.append _ (Bal.iaddEv _)
-      induction vs with
-      | nil => exact Bal.nil
-      | cons x xs ih => rw [List.flatMap_cons]; exact Bal.append Bal.mulEv ih
-  · exact Bal.nil
+theorem Bal.leaf (b : Body) (zt : ATree) (ops : List Operand) : Bal (leafBody b zt ops).2 := by
+  apply leafBody_ind Bal Bal.nil (fun _ _ => Bal.append) Bal.mulEv ?_ ?_ ?_ Bal.iaddEv
+  · simp [Bal, cnt, callsOf, sumInc, nMul, nUpd, nAdd, imulEv, strip_compute]
+  · simp [Bal, cnt, callsOf, sumInc, nMul, nUpd, nAdd, addEv, strip_compute]
+  · simp [Bal, cnt, callsOf, sumInc, nMul, nUpd, nAdd, assignEv, strip_compute]
 
 theorem Bal.iterEv (v : String) (c pos : Int) (inner : List KEv) (h : Bal inner) : Bal (iterEv v c pos inner) := by
   unfold Ft.C15.iterEv
@@ -193,12 +210,12 @@ theorem Bal.asserts (v : String) (asrt : List KEv) (h : ∀ e ∈ asrt, ∃ d in
     have : Bal [KEv.assertShape v d ins] := by simp [Bal, cnt, callsOf, sumInc, nMul, nUpd, nAdd]
     exact Bal.append this (ih (fun e he => h e (List.mem_cons_of_mem _ he)))
 
-theorem runK_bal (declared : Bool) (loops zr : List String) (zt : ATree) (ops : List Operand) :
-    Bal (runK declared loops zr zt ops).2 := by
-  apply runK_ind declared false Bal (fun _ => Bal) Bal.nil Bal.leaf (fun _ => Bal.nil) (fun _ _ _ => Bal.append)
+theorem runK_bal (cfg : KCfg) (loops zr : List String) (zt : ATree) (ops : List Operand) :
+    Bal (runK cfg loops zr zt ops).2 := by
+  apply runK_ind cfg false Bal (fun _ => Bal) Bal.nil Bal.leaf (fun _ => Bal.nil) (fun _ _ _ => Bal.append)
     (fun v c pos inner h => Bal.iterEv v c pos inner h) (fun _ v inner h => Bal.iterEvU v inner h)
   · intro v asrt inner ha hi
-    refine Bal.append (Bal.append (Bal.append ?_ (Bal.asserts v asrt (fun e he => ⟨declared, ha e he⟩))) hi) ?_
+    refine Bal.append (Bal.append (Bal.append ?_ (Bal.asserts v asrt (fun e he => ⟨cfg.declared, ha e he⟩))) hi) ?_
     · simp [Bal, cnt, callsOf, sumInc, nMul, nUpd, nAdd]
     · simp [Bal, cnt, callsOf, sumInc, nMul, nUpd, nAdd]
   · intro h; cases h
@@ -215,25 +232,15 @@ theorem UB.nil : UB [] := by intro r; simp [callsOf, nUse, nBody]
 theorem UB.append {a b : List KEv} (ha : UB a) (hb : UB b) : UB (a ++ b) := by
   intro r; rw [callsOf_append, nUse_append', nBody_append, ha r, hb r]
 
-theorem UB.leaf (zt : ATree) (ops : List Operand) : UB (leafBody zt ops).2 := by
-  unfold leafBody
-  split
-  · split
-    · exact UB.nil
-    · rename_i v0 vs hh
-      clear hh
-      simp only
-      apply UB.append
-      · induction vs with
-        | nil => exact UB.nil
-        | cons x xs ih =>
-          rw [List.flatMap_cons]
-          refine UB.append ?_ ih
-          intro r; simp [callsOf, nUse, nBody, mulEv]
-      · intro r
-        unfold iaddEv
-        split <;> simp [callsOf, nUse, nBody]
-  · exact UB.nil
+theorem UB.leaf (b : Body) (zt : ATree) (ops : List Operand) : UB (leafBody b zt ops).2 := by
+  apply leafBody_ind UB UB.nil (fun _ _ => UB.append)
+  · intro r; simp [callsOf, nUse, nBody, mulEv]
+  · intro r; simp [callsOf, nUse, nBody, imulEv]
+  · intro r; simp [callsOf, nUse, nBody, addEv]
+  · intro r; simp [callsOf, nUse, nBody, assignEv]
+  · intro old r
+    unfold iaddEv
+    split <;> simp [callsOf, nUse, nBody]
 
 theorem UB.iterEv (v : String) (c pos : Int) (inner : List KEv) (h : UB inner) : UB (iterEv v c pos inner) := by
   unfold Ft.C15.iterEv
@@ -249,9 +256,9 @@ theorem UB.iterEv (v : String) (c pos : Int) (inner : List KEv) (h : UB inner) :
       simp [callsOf, nUse, nBody, h1, h2, List.countP_cons]
   · intro r; simp [callsOf, nUse, nBody]
 
-theorem runK_ub (declared : Bool) (loops zr : List String) (zt : ATree) (ops : List Operand)
-    (hU : ∀ o ∈ ops, o.uShape = none) : UB (runK declared loops zr zt ops).2 := by
-  apply runK_ind declared true UB (fun _ => UB) UB.nil UB.leaf (fun _ => UB.nil) (fun _ _ _ => UB.append)
+theorem runK_ub (cfg : KCfg) (loops zr : List String) (zt : ATree) (ops : List Operand)
+    (hU : ∀ o ∈ ops, o.uShape = none) : UB (runK cfg loops zr zt ops).2 := by
+  apply runK_ind cfg true UB (fun _ => UB) UB.nil UB.leaf (fun _ => UB.nil) (fun _ _ _ => UB.append)
     (fun v c pos inner h => UB.iterEv v c pos inner h) (fun h => by cases h)
   · intro v asrt inner ha hi
     refine UB.append (UB.append (UB.append ?_ ?_) hi) ?_
@@ -260,7 +267,7 @@ theorem runK_ub (declared : Bool) (loops zr : List String) (zt : ATree) (ops : L
       | nil => exact UB.nil
       | cons e es ih =>
         obtain ⟨ins, rfl⟩ := ha e List.mem_cons_self
-        have : UB [KEv.assertShape v declared ins] := by intro r; simp [callsOf, nUse, nBody]
+        have : UB [KEv.assertShape v cfg.declared ins] := by intro r; simp [callsOf, nUse, nBody]
         exact UB.append this (ih (fun e he => ha e (List.mem_cons_of_mem _ he)))
     · intro r; simp [callsOf, nUse, nBody]
   · intro _; exact hU
@@ -333,26 +340,18 @@ theorem SafeIn.append {v : String} {a b : List KEv} (ha : SafeIn v a) (hb : Safe
 
 theorem Safe.toIn {v : String} {a : List KEv} (h : Safe a) : SafeIn v a := fun regd _ => h regd
 
-theorem Safe.leaf (zt : ATree) (ops : List Operand) : Safe (leafBody zt ops).2 := by
-  have hm : Safe mulEv := by intro regd; simp [callsOf, safeB, mulEv]
+theorem Safe.leaf (b : Body) (zt : ATree) (ops : List Operand) : Safe (leafBody b zt ops).2 := by
   have happ : ∀ a b, Safe a → Safe b → Safe (a ++ b) := by
     intro a b ha hb regd
     rw [callsOf_append, safeB_append, ha regd, hb _]; rfl
-  unfold leafBody
-  split
-  · split
-    · exact Safe.nil
-    · rename_i v0 vs hh
-      clear hh
-      simp only
-      apply happ
-      · induction vs with
-        | nil => exact Safe.nil
-        | cons x xs ih => rw [List.flatMap_cons]; exact happ _ _ hm ih
-      · intro regd
-        unfold iaddEv
-        split <;> simp [callsOf, safeB]
-  · exact Safe.nil
+  apply leafBody_ind Safe Safe.nil happ
+  · intro regd; simp [callsOf, safeB, mulEv]
+  · intro regd; simp [callsOf, safeB, imulEv]
+  · intro regd; simp [callsOf, safeB, addEv]
+  · intro regd; simp [callsOf, safeB, assignEv]
+  · intro old regd
+    unfold iaddEv
+    split <;> simp [callsOf, safeB]
 
 theorem SafeIn.iterEv (v : String) (c pos : Int) (inner : List KEv) (h : Safe inner) :
     SafeIn v (iterEv v c pos inner) := by
@@ -376,12 +375,12 @@ theorem callsOf_asserts (v : String) (asrt : List KEv) (h : ∀ e ∈ asrt, ∃ 
     simp only [callsOf, List.filterMap_cons]
     exact ih (fun e he => h e (List.mem_cons_of_mem _ he))
 
-theorem runK_safe (declared : Bool) (loops zr : List String) (zt : ATree) (ops : List Operand) :
-    Safe (runK declared loops zr zt ops).2 := by
-  apply runK_ind declared false Safe SafeIn Safe.nil Safe.leaf SafeIn.nil (fun _ _ _ => SafeIn.append)
+theorem runK_safe (cfg : KCfg) (loops zr : List String) (zt : ATree) (ops : List Operand) :
+    Safe (runK cfg loops zr zt ops).2 := by
+  apply runK_ind cfg false Safe SafeIn Safe.nil Safe.leaf SafeIn.nil (fun _ _ _ => SafeIn.append)
     (fun v c pos inner h => SafeIn.iterEv v c pos inner h) (fun _ v inner h => SafeIn.iterEvU v inner h)
   · intro v asrt inner ha hi regd
-    rw [callsOf_append, callsOf_append, callsOf_append, callsOf_asserts v asrt (fun e he => ⟨declared, ha e he⟩)]
+    rw [callsOf_append, callsOf_append, callsOf_append, callsOf_asserts v asrt (fun e he => ⟨cfg.declared, ha e he⟩)]
     have h1 : callsOf [KEv.call (.registerRank v)] = [.registerRank v] := rfl
     have h2 : callsOf [KEv.call (.endIter v)] = [.endIter v] := rfl
     rw [h1, h2]
@@ -403,9 +402,9 @@ theorem nUse_cons' (r ty : String) (op : MOp) (ops : List MOp) :
 
 /-! ### assertions, and what kind of calls a kernel makes -/
 
-theorem runK_asserts (declared : Bool) (loops zr : List String) (zt : ATree) (ops : List Operand) :
-    ∀ e ∈ (runK declared loops zr zt ops).2, ∀ v d ins, e = KEv.assertShape v d ins → d = declared := by
-  let P : List KEv → Prop := fun evs => ∀ e ∈ evs, ∀ v d ins, e = KEv.assertShape v d ins → d = declared
+theorem runK_asserts (cfg : KCfg) (loops zr : List String) (zt : ATree) (ops : List Operand) :
+    ∀ e ∈ (runK cfg loops zr zt ops).2, ∀ v d ins, e = KEv.assertShape v d ins → d = cfg.declared := by
+  let P : List KEv → Prop := fun evs => ∀ e ∈ evs, ∀ v d ins, e = KEv.assertShape v d ins → d = cfg.declared
   have happ : ∀ a b, P a → P b → P (a ++ b) := by
     intro a b ha hb e he
     rcases List.mem_append.1 he with h | h
@@ -414,29 +413,21 @@ theorem runK_asserts (declared : Bool) (loops zr : List String) (zt : ATree) (op
   have hsing : ∀ op, P [KEv.call op] := by
     intro op e he v d ins h
     simp only [List.mem_singleton] at he; subst he; cases h
-  apply runK_ind declared false P (fun _ => P)
+  apply runK_ind cfg false P (fun _ => P)
   · intro e he; cases he
-  · intro zt ops
-    unfold leafBody
-    split
-    · split
-      · intro e he; cases he
-      · rename_i v0 vs hh
-        clear hh
-        simp only
-        apply happ
-        · induction vs with
-          | nil => intro e he; cases he
-          | cons x xs ih =>
-            rw [List.flatMap_cons]
-            refine happ _ _ ?_ ih
-            intro e he v d ins h
-            simp only [mulEv, List.mem_cons, List.mem_singleton, List.not_mem_nil, or_false] at he
-            rcases he with rfl | rfl <;> cases h
-        · intro e he v d ins h
-          unfold iaddEv at he
-          split at he <;> simp at he <;> rcases he with rfl | rfl | rfl <;> cases h
-    · intro e he; cases he
+  · intro b zt ops
+    have hnone : ∀ (l : List KEv), (∀ e ∈ l, ∀ v d ins, e ≠ KEv.assertShape v d ins) → P l :=
+      fun l hl e he v d ins h => absurd h (hl e he v d ins)
+    apply leafBody_ind P (fun e he => by cases he) happ
+    · exact hnone _ (by intro e he v d ins; simp only [mulEv, List.mem_cons, List.not_mem_nil, or_false] at he; rcases he with rfl | rfl <;> simp)
+    · exact hnone _ (by intro e he v d ins; simp only [imulEv, List.mem_cons, List.not_mem_nil, or_false] at he; rcases he with rfl | rfl | rfl <;> simp)
+    · exact hnone _ (by intro e he v d ins; simp only [addEv, List.mem_cons, List.not_mem_nil, or_false] at he; rcases he with rfl | rfl <;> simp)
+    · exact hnone _ (by intro e he v d ins; simp only [assignEv, List.mem_cons, List.not_mem_nil, or_false] at he; rcases he with rfl | rfl <;> simp)
+    · intro old
+      apply hnone
+      intro e he v d ins
+      unfold iaddEv at he
+      split at he <;> simp at he <;> rcases he with rfl | rfl | rfl <;> simp
   · intro v e he; cases he
   · intro v a b; exact happ a b
   · intro v c pos inner hi
@@ -458,14 +449,14 @@ theorem runK_asserts (declared : Bool) (loops zr : List String) (zt : ATree) (op
     exact ((KEv.assertShape.inj h).2.1).symm
   · intro h; cases h
 
-theorem assertsOk_of_declared (wtr : String → Bool) (loops zr : List String) (zt : ATree) (ops : List Operand) :
-    assertsOk wtr (runK true loops zr zt ops).2 = true := by
+theorem assertsOk_of_declared (wtr : String → Bool) (b : Body) (loops zr : List String) (zt : ATree) (ops : List Operand) :
+    assertsOk wtr (runK { declared := true, body := b } loops zr zt ops).2 = true := by
   unfold assertsOk
   rw [List.all_eq_true]
   intro e he
   cases e with
   | assertShape v d ins =>
-    have := runK_asserts true loops zr zt ops _ he v d ins rfl
+    have := runK_asserts { declared := true, body := b } loops zr zt ops _ he v d ins rfl
     subst this; rfl
   | call op => rfl
   | body r => rfl
